@@ -84,8 +84,13 @@ claim('C01',
       'Fragment (bounded symbolic): the neutral equilibrium returned by phi_1D equals the textbook theta0*nu/x*4beta/(beta+1)^2 and is an exact fixed point of the real one-population integrator (both drivers, from tridiag / implicit_1Dx IR) at every interior frequency for any number of steps; for every density one implicit step multiplies heterozygosity by exactly 1/(1+dt*kappa/nu) and the influx adds dt*theta0/2*(1-x_1) - pinning time unit, 1/nu drift, theta0/2 influx and the beta factor for all grids/sizes/theta0/beta/dt. The convergence-to-theory part of C01 (error ~ dt, 1.5%, multi-epoch coalescent expectations, selection equilibria) is NOT claimed.',
       'doubles as reals; tridiagonal contract + uniqueness lemma (C02); the documented scheme is taken as the reference discretisation; only gamma=0',
       'DESIGN.md 3/C01')
+
+claim('C20',
+      'Fragment (bounded symbolic): (a) every public integrator, Spectrum method, from_phi, likelihood, optimiser helper, PhiManip non-pulse function and Numerics helper leaves its array/list arguments unchanged (deep snapshot vs after, element identity or solver equality) and the integrators return a fresh non-aliasing array, also on the T==initial_t and frozen shortcuts; (b) layout independence: one_pop..five_pops on 13 view patterns of phi (C/F order, transposes, slices, negative strides) and 4 of xx equal the result on a contiguous copy for all density values (kernels from LLVM IR with the pointer semantics of the compiled code); (c) value-keyed caches (_dbeta_cache, Godambe.cache) are transparent for independent symbolic keys; integer-keyed caches by enumeration.',
+      'doubles as reals; PYTHONHASHSEED / fresh-interpreter comparison / Demes.cache outside; integer-keyed caches covered by enumeration (labelled); one time step in (a)/(b)',
+      'DESIGN.md 3/C20')
 _todo = 'check not built yet (in progress in this session; see DESIGN.md for the plan)'
-for _p in ['C15','C20']:
+for _p in ['C15']:
     NA[_p] = _todo
 NA['C16'] = ('every path from a demes graph to a spectrum goes through the third-party demes package (attrs validators, float() coercion, '
              'math.isclose, YAML) which forces all symbolic values to concrete floats: nothing is left for a solver to quantify over (DESIGN.md section 4)')
